@@ -169,7 +169,8 @@ type tcase struct {
 	szq     [][2]int64 // pairs of sizes put to the real sizesAreClose (also outside what Consume can reach: 0, 1, < 32, > 2^32)
 	// re-use of the RenameAnalysis instance: before the observed Consume the SAME instance consumes 1 = the reversed
 	// change set (additions <-> deletions), 2 = the same change set (copies of the change objects), 3 = a malformed set
-	// (Consume returns an error) and then the reversed one; 4..6 = the same after a second Configure + Initialize.
+	// (Consume returns an error) and then the reversed one; 4..6 = the same followed by a second Configure + Initialize;
+	// 7 = the same paths with the blobs rotated among the additions and among the deletions (8: + Configure/Initialize).
 	// The model knows nothing of it: the observed call must behave like the call on a fresh instance.
 	warm int
 }
